@@ -58,6 +58,7 @@ func newWorld(x *vs.Exec, method, scopes string, hb int64) *sw.World {
 // the action alphabet; every action is something a remote peer can do
 var actions = []string{
 	"Lok", "Lbad", "Lempty", "Lstale", "Lpass", // logins on a fresh connection (Lpass: wrong key + client_spec.always_auth_pass)
+	"Lbad-rid", // wrong key, naming the run id of an established session of somebody else
 	"Wlive-ok", "Wlive-bad", "Wlive-none", "Wunk-ok", "Wempty-ok", // work connections: run id live/unknown/empty x key
 	"Vunk",                   // visitor connection to a proxy that does not exist
 	"Fproxy", "Fping", "Fgarbage", "Fnothing", // other first messages, garbage, silence then close
@@ -131,6 +132,9 @@ func scSeq(method, scopes, seq string) func(x *vs.Exec) {
 					o.Key, want = key(method, true, o.Timestamp, "x"), true
 				case "Lbad":
 					o.Key = key(method, false, o.Timestamp, "x")
+				case "Lbad-rid":
+					o.Key = key(method, false, o.Timestamp, "x")
+					o.RunID = by.RunID
 				case "Lempty":
 					o.Key = " "
 				case "Lstale":
